@@ -60,7 +60,8 @@ var knownEng = ev.Matcher[EngCase]{
 }
 
 const rule = "(a) skip, metamorphic, 3 dialects: the C02 base and a set of 1-8 non-interfering catalogue edits; SchemaDiff with DiffSkipChanges(K) for every single kind K and random subsets of the 12 skippable table-level kinds " +
-	"must equal the unrestricted diff with every K-typed change removed at every nesting level (emptied ModifyTables removed), and walking it finds no K-typed change. " +
+	"must equal the unrestricted diff with every K-typed change removed at every nesting level (emptied ModifyTables removed), and walking it finds no K-typed change; " +
+	"the same with a materialized view on both sides whose index list differs (added / dropped / modified index, every subset; a view added or dropped), so that index changes are also nested in a ModifyView, x every kind incl. AddView/DropView/ModifyView. " +
 	"(b) exclusion, API: realms of 1-2 schemas (tables incl. names with a dot, columns, named indexes/FKs/checks) x sets of 1-4 patterns from a grammar (1-3 parts; literal, *, prefix*, ?, [ab]* classes, CSV-quoted names containing a dot, [type=a|b] selectors on any part); " +
 	"ExcludeRealm must remove exactly the resources an independent reference of the documented semantics says (both directions). " +
 	"(c) exclusion on a real SQLite engine: InspectRealm / InspectSchema with Exclude against the same reference; CLI: `schema apply --exclude <tables>` leaves excluded tables byte-identical (schema text + rows) while everything else converges, and `--env` with diff { skip { ... } } never performs a skipped kind of change. " +
@@ -217,6 +218,10 @@ func genSkip(t *rapid.T) SkipCase {
 	ks := rapid.Permutation(SkipKindNames()).Draw(t, "kinds")
 	c.Skip = ks[:rapid.IntRange(1, 4).Draw(t, "nskip")]
 	sort.Strings(c.Skip)
+	if rapid.IntRange(0, 2).Draw(t, "withview") == 0 {
+		c.View = rapid.SliceOfNDistinct(rapid.SampledFrom([]string{"add-index", "drop-index", "modify-index", "view-add", "view-drop"}), 1, 4, rapid.ID[string]).Draw(t, "viewops")
+		sort.Strings(c.View)
+	}
 	return c
 }
 
@@ -226,13 +231,16 @@ func TestCheck(t *testing.T) {
 	checkS := func(c SkipCase) error {
 		out, err := checkSkip(c)
 		col.Class("skip/" + c.Dialect)
+		if len(c.View) > 0 {
+			col.Class("skip/" + c.Dialect + "/view-indexes")
+		}
 		if out.Full > out.Kept && out.Kept > 0 {
 			var ks []string
 			for _, e := range c.Edits {
 				ks = append(ks, e.Kind)
 			}
 			sort.Strings(ks)
-			col.NonTrivial(fmt.Sprintf("skip|%s|%v|%s", c.Dialect, c.Skip, strings.Join(ks, ",")))
+			col.NonTrivial(fmt.Sprintf("skip|%s|%v|%s|%v", c.Dialect, c.Skip, strings.Join(ks, ","), c.View))
 		}
 		col.Sample("skip/"+c.Dialect, c)
 		return err
@@ -242,6 +250,31 @@ func TestCheck(t *testing.T) {
 		for _, s := range c02.Sites(d, c02.Base(d)) {
 			for _, k := range SkipKindNames() {
 				if !ev.Each(col, "skip-enumerated", SkipCase{Dialect: d, Edits: []c02.EditRef{s.E}, Skip: []string{k}}, checkS, knownSkip) {
+					return
+				}
+			}
+		}
+	}
+	// a materialized view whose index list differs (every non-empty subset of the view operations) x every single kind,
+	// with and without an unrelated table edit
+	viewOps := []string{"add-index", "drop-index", "modify-index", "view-add", "view-drop"}
+	for _, d := range []string{"mysql", "postgres", "sqlite"} {
+		for mask := 1; mask < 1<<len(viewOps); mask++ {
+			var ops []string
+			for i, o := range viewOps {
+				if mask&(1<<i) != 0 {
+					ops = append(ops, o)
+				}
+			}
+			for _, k := range append([]string{""}, SkipKindNames()...) {
+				c := SkipCase{Dialect: d, View: ops}
+				if k != "" {
+					c.Skip = []string{k}
+				}
+				if mask%2 == 0 {
+					c.Edits = []c02.EditRef{{Kind: "add-index", Table: "logs", Obj: "zz_idx_lfree1", Arg: "lfree1"}}
+				}
+				if !ev.Each(col, "skip-view-indexes", c, checkS, knownSkip) {
 					return
 				}
 			}
